@@ -1,6 +1,8 @@
 pub mod checks;
 pub mod codec;
+pub mod ix;
 pub mod model;
 pub mod report;
 pub mod rnd;
 pub mod svm;
+pub mod world;
